@@ -254,15 +254,15 @@ func init() {
 		}
 		trees := func(in Input, a *Analysis) bool { return a.OutTree || a.InTree }
 		g := gridSpec{P1: allP1, P2: allP2, P4: saP4, P5: []int{2}, SZ: []int{1}}.list()
-		d := tierPick(tier, 5, 6)
+		d := tierPick(tier, 6, 6)
 		ps := []*Pass{
-			{Name: "trees", Space: spaceG(1, d, 0, trees), Eval: stdEval("C13", staticGrid(g), or),
+			{Name: "trees", Space: spaceGN(1, d, func(d int) int { return d + 1 }, 0, trees), Eval: stdEval("C13", staticGrid(g), or),
 				Bound: fmt.Sprintf("every out-tree and in-tree with <=%d edges, every labelling and every edge order (canonical ordered edge lists) x {greedy,dfs} x {ns,lp} x 4 size-aware positioners", d)},
 			{Name: "big-trees", Space: spaceList(treeFamilies()), Eval: stdEval("C13", staticGrid(gridSpec{P1: []int{0}, P2: allP2, P4: []int{0, 1}, P5: []int{2}, SZ: []int{1}}.list()), or),
 				Bound: "complete binary/ternary trees, caterpillars and spiders up to 40 nodes, both directions, 3 edge orders"},
 		}
 		if tier == "thorough" {
-			ps = append(ps, &Pass{Name: "trees-7", Space: spaceG(7, 7, 0, trees), Eval: stdEval("C13", staticGrid(gridSpec{P1: []int{0}, P2: allP2, P4: []int{0}, P5: []int{2}, SZ: []int{1}}.list()), or),
+			ps = append(ps, &Pass{Name: "trees-7", Space: spaceGN(7, 7, func(d int) int { return d + 1 }, 0, trees), Eval: stdEval("C13", staticGrid(gridSpec{P1: []int{0}, P2: allP2, P4: []int{0}, P5: []int{2}, SZ: []int{1}}.list()), or),
 				Bound: "every out-tree and in-tree with 7 edges, every edge order x greedy x {ns,lp} x sink"})
 		}
 		return ps
